@@ -580,7 +580,7 @@ func absPaths(c *Ctx, dv *dev) ([]*Path, error) {
 			keep[b] = true
 		}
 	}
-	paths, err := Enumerate(fn, SymConfig{Prog: c.P, MaxDepth: 3, Collapse: true, CollapsePure: true, OnlyInline: only, KeepDiamonds: keep, MaxVisits: 4}) // short fixed loops (a two-entry fallback table, a variadic release helper) unroll completely
+	paths, err := Enumerate(fn, SymConfig{Prog: c.P, MaxDepth: 3, Collapse: true, CollapsePure: true, OnlyInline: only, KeepDiamonds: keep, KeepDecided: true, MaxVisits: 4}) // short fixed loops (a two-entry fallback table, a variadic release helper) unroll completely
 	c.Paths += len(paths)
 	return paths, err
 }
